@@ -38,7 +38,7 @@ Reset(c) ==
 
 AtNow == e.t = now
 NoDeadlineBy(t) == \A th \in Thread : (call[th] # NULL /\ call[th].due >= 0) => call[th].due > t
-Ignored == {"accept", "listen", "lclose", "hook", "hookret", "pclose", "drop", "mkpipe", "pdrop"}
+Ignored == {"accept", "listen", "lclose", "hook", "hookret", "pclose", "drop", "mkpipe", "pdrop", "dial", "dialres"}
 UNCH_T == UNCHANGED <<res, got, pend>>
 NoPend == \A t \in Thread : pend[t] = NULL
 
